@@ -144,3 +144,13 @@ def level(detector, level: float = 0.0, tilt: float = 0.0, delay_ms: float = 0.0
     if delay_ms:
         time.sleep((int(abs(float(level)) * 1000) % 5) * float(delay_ms) / 1000.0)
     detector.pixel.array = arr
+
+
+def adc_image(detector, slot: int = 0, value: int = 0) -> None:
+    """writes an image whose dtype follows the detector's ADC resolution (like `simple_adc`): every pixel = value, saturated at
+    the largest code of that dtype"""
+    from pyxel.util import get_dtype
+
+    dtype = get_dtype(detector.characteristics.adc_bit_resolution)
+    LOG.append(("adc_image", int(slot), str(np.dtype(dtype)), float(value), threading.get_ident()))
+    detector.image.array = np.full(detector.geometry.shape, min(int(value), int(np.iinfo(dtype).max)), dtype=dtype)
